@@ -898,7 +898,7 @@ func evalProgram(p *Program, script *env.Script, input any) *RefRun {
 			// when closed from outside
 			nev := false
 			for _, o := range p.Outputs {
-				if r.OutSt[o.ID] == Never {
+				if r.OutSt[o.ID] == Never || r.OutSt[o.ID] == Unknown {
 					nev = true
 				}
 			}
